@@ -31,6 +31,11 @@ class UserExc(Exception):
         super().__init__(f'user{n}')
         self.n = n
 
+    def __len__(self):
+        # an aggregate error with no sub-errors: the object is FALSY - and is still the exception that was raised
+        # (`is not None`, never truthiness, decides whether there is an exception)
+        return 0
+
 
 def excname(e):
     if isinstance(e, UserExc):
